@@ -4,6 +4,7 @@
   property's stated domain (skipped) and `some failures` otherwise.
 -/
 import SLV.Oracle.Basic
+import SLV.Oracle.Fuse
 namespace SLV.Oracle
 
 structure Case where
@@ -185,8 +186,53 @@ def oracleC14 (c : Case) : Option (List String) :=
       check (if c.ints.getD 0 0 == 0 then "C14.swap_x" else "C14.swap_y") (QB.close (64 * τ) l r)
   | _ => none
 
+/-- every entry of `x` lies between the corresponding entries of `l` and `r` (±δ) -/
+def betweenL (δ : Rat) (x l r : List Rat) : Bool :=
+  (List.zip x (List.zip l r)).all fun t =>
+    decide (minQ t.2.1 t.2.2 - δ ≤ t.1) && decide (t.1 ≤ maxQ t.2.1 t.2.2 + δ)
+
+/-- C02 / C03: fusion closure and agreement with the evidence-space definition -/
+def oracleFuse (c : Case) (doC03 : Bool) : Option (List String) :=
+  let n := c.ints.getD 0 0
+  match allSome c.inp with
+  | none => none
+  | some xs =>
+  let (b1, u1, a1) := opinionAt xs 0 n
+  let isOS := c.op == "fuse_os"
+  let (b2, u2, a2) :=
+    if isOS then (slice xs (2 * n + 1) n, xs.getD (3 * n + 1) 0, a1) else opinionAt xs (2 * n + 1) n
+  let same := isOS || c.ints.getD 2 0 == 1
+  let op := opOfNat (c.ints.getD 1 0)
+  if !(wfOpinion (4 * c.eps) b1 u1 a1 && wfOpinion (4 * c.eps) b2 u2 a2) then none else
+  if c.op != "fuse" && c.op != "fuse_os" then none else
+  let pfx := if doC03 then "C03" else "C02"
+  if c.cls != "ok" then some [pfx ++ ".no_value(" ++ c.cls ++ ")"] else
+  match allSome c.out with
+  | none => some [pfx ++ ".non_finite"]
+  | some out =>
+  let (b, u, a) := opinionAt out 0 n
+  let e := c.eps
+  if !doC03 then
+    some (check "C02.simplex_wf" (wfSimplex (64 * n * e) b u)
+      ++ check "C02.base_rate_sum" (decide (absQ (sumQ a - 1) ≤ 64 * n * e))
+      ++ check "C02.base_rate_between" (betweenL (4 * e) a a1 a2)
+      ++ (if same then check "C02.shared_base_rate_unchanged" (a == a1) else []))
+  else
+    -- operands in the tolerance bands (0, eps] / [1-2eps, 1) are classified by the guards: excluded
+    let band (v : Rat) : Bool := (decide (0 < v) && decide (v ≤ e)) || (decide (1 - 2 * e ≤ v) && decide (v < 1))
+    if band u1 || band u2 then none else
+    -- ECm: base-rate entries in (0, eps] are skipped by the maximiser
+    if op == .ecm && a.any (fun ai => decide (0 < ai) && decide (ai ≤ e)) then none else
+    let sp := fuseSpec op same b1 u1 a1 b2 u2 a2
+    let τ := tauSpec c.fmt
+    some (check "C03.belief" (closeList τ b sp.1)
+      ++ check "C03.uncertainty" (closeQ τ u sp.2.1)
+      ++ check "C03.base_rate" (closeList τ a sp.2.2))
+
 def oracle (c : Case) : Option (List String) :=
   match c.prop with
+  | "C02" => oracleFuse c false
+  | "C03" => oracleFuse c true
   | "C09" => oracleC09 c
   | "C12" => oracleC12 c
   | "C14" => oracleC14 c
